@@ -17,6 +17,9 @@ pub struct Violation {
     pub clause: &'static str,
     pub step: usize,
     pub msg: String,
+    /// true: the reference model can no longer be trusted, the run ends after this step.
+    /// false: observational (reality compared with reality), the run continues.
+    pub stop: bool,
 }
 
 #[derive(Clone, Debug, PartialEq)]
@@ -221,7 +224,17 @@ impl Engine {
         self.w.setup.staking_addr.clone()
     }
     pub fn v(&mut self, prop: &'static str, clause: &'static str, msg: String) {
-        self.viol.push(Violation { prop, clause, step: self.step_no, msg });
+        self.viol.push(Violation { prop, clause, step: self.step_no, msg, stop: true });
+    }
+    /// observational violation: recorded once per (property, clause), does not end the run
+    pub fn vo(&mut self, prop: &'static str, clause: &'static str, msg: String) {
+        if self.viol.iter().any(|v| v.prop == prop && v.clause == clause) {
+            return;
+        }
+        self.viol.push(Violation { prop, clause, step: self.step_no, msg, stop: false });
+    }
+    pub fn must_stop(&self) -> bool {
+        self.viol.iter().any(|v| v.stop)
     }
     pub fn hook_of(&self, native_sender: &str) -> String {
         hooks_intermediate_sender(&self.m.cfg.channel, native_sender, &self.w.setup.proto_prefix)
@@ -561,13 +574,23 @@ impl Engine {
         let ibc = self.ibc();
         let lst = self.lst.clone();
 
-        // ---- C01: N == fresh forwards - set aside - swept + adjustments
-        let fresh = self.fresh_forwarded() as i128;
+        // ---- C01: N == forwarded toward the staker (delivered, in flight, refunded awaiting re-send)
+        //            - set aside - swept (+ resume re-basing)
+        let refundable_ibc = self.refunded_not_resent(&ibc);
+        let not_refunded: i128 = self
+            .w
+            .st
+            .packets
+            .iter()
+            .filter(|p| p.sender == s && p.denom == ibc && p.state != PState::Refunded)
+            .map(|p| p.amount as i128)
+            .sum();
+        let fresh = not_refunded + refundable_ibc.max(0);
         let exp_sum: i128 = post.batches.iter().filter(|b| b.status != "pending").map(|b| b.expected as i128).sum();
         let lhs = post.n as i128 + exp_sum + self.m.swept as i128;
         let rhs = fresh + self.m.adj_n;
         if lhs != rhs {
-            self.v("C01", "total_backed", format!("State.total_native_token={} + set_aside={} + swept={} != forwarded={} + resume_adj={}", post.n, exp_sum, self.m.swept, fresh, self.m.adj_n));
+            self.vo("C01", "total_backed", format!("State.total_native_token={} + set_aside={} + swept={} != forwarded (delivered+in flight {} + refunded awaiting re-send {}) + resume_adj={}", post.n, exp_sum, self.m.swept, not_refunded, refundable_ibc.max(0), self.m.adj_n));
         }
         // honest-operator clause
         if self.sw.honest && !self.m.reckless {
@@ -585,11 +608,11 @@ impl Engine {
                     PState::Refunded => 0,
                 })
                 .sum::<i128>()
-                + self.refunded_not_resent(&ibc);
+                + self.refunded_not_resent(&ibc).max(0);
             let have = staker_side + toward + self.m.adj_n;
             let need = post.n as i128 + outstanding + self.m.swept as i128;
             if have != need {
-                self.v("C01", "operator_backing", format!("staker holdings+in transit {} (+adj {}) != total {} + outstanding batches {} + swept {}", staker_side + toward, self.m.adj_n, post.n, outstanding, self.m.swept));
+                self.vo("C01", "operator_backing", format!("staker holdings+in transit {} (+adj {}) != total {} + outstanding batches {} + swept {}", staker_side + toward, self.m.adj_n, post.n, outstanding, self.m.swept));
             }
         }
 
@@ -600,53 +623,53 @@ impl Engine {
         let owed = owed_a + post.fees as i128 + refunded_ibc;
         let unbacked = if self.known_c02_sweep { self.m.swept as i128 } else { 0 };
         if bal != owed - unbacked {
-            self.v("C02", "balance_eq_owed", format!("contract holds {} but owes batches {} + fees {} + refundable {} (unbacked swept {})", bal, owed_a, post.fees, refunded_ibc, self.m.swept));
+            self.vo("C02", "balance_eq_owed", format!("contract holds {} but owes batches {} + fees {} + refundable {} (unbacked swept {})", bal, owed_a, post.fees, refunded_ibc, self.m.swept));
         } else if self.m.swept > 0 {
             *self.stats.known.entry("C02 ownerless-stake sweep credits total_fees with tokens the contract does not hold").or_insert(0) += 1;
         }
         if refunded_ibc < 0 {
-            self.v("C07", "resent_more_than_refunded", format!("staked-asset re-sent exceeds refunded by {}", -refunded_ibc));
+            self.vo("C07", "resent_more_than_refunded", format!("staked-asset re-sent exceeds refunded by {}", -refunded_ibc));
         }
 
         // ---- C03: LST supply and contract's own LST balance
         let supply = self.w.st.bank.supply(&lst) as i128;
         if supply != post.l as i128 - self.m.adj_l {
-            self.v("C03", "supply_eq_total", format!("LST supply {} != State.total_liquid_stake_token {} - resume_adj {}", supply, post.l, self.m.adj_l));
+            self.vo("C03", "supply_eq_total", format!("LST supply {} != State.total_liquid_stake_token {} - resume_adj {}", supply, post.l, self.m.adj_l));
         }
         let own_lst = self.w.st.bank.balance(&s, &lst) as i128;
         let pend_total = post.pending.as_ref().map(|b| b.total).unwrap_or(0) as i128;
         let refunded_lst = self.refunded_not_resent(&lst);
         if own_lst != pend_total + refunded_lst {
-            self.v("C03", "own_lst_balance", format!("contract holds {} LST but pending batch has {} and refundable LST is {}", own_lst, pend_total, refunded_lst));
+            self.vo("C03", "own_lst_balance", format!("contract holds {} LST but pending batch has {} and refundable LST is {}", own_lst, pend_total, refunded_lst));
         }
         if refunded_lst < 0 {
-            self.v("C07", "resent_more_than_refunded", format!("LST re-sent exceeds refunded by {}", -refunded_lst));
+            self.vo("C07", "resent_more_than_refunded", format!("LST re-sent exceeds refunded by {}", -refunded_lst));
         }
 
         // ---- C06: batch structure
         let n_pending = post.batches.iter().filter(|b| b.status == "pending").count();
         if n_pending != 1 {
-            self.v("C06", "one_pending", format!("{} pending batches", n_pending));
+            self.vo("C06", "one_pending", format!("{} pending batches", n_pending));
         }
         for (i, b) in post.batches.iter().enumerate() {
             if b.id != i as u64 + 1 {
-                self.v("C06", "ids_contiguous", format!("batch ids are {:?}", post.batches.iter().map(|b| b.id).collect::<Vec<_>>()));
+                self.vo("C06", "ids_contiguous", format!("batch ids are {:?}", post.batches.iter().map(|b| b.id).collect::<Vec<_>>()));
                 break;
             }
         }
         if let (Some(last), Some(p)) = (post.batches.last(), &post.pending) {
             if last.status != "pending" || p.id != last.id {
-                self.v("C06", "pending_is_highest", format!("pending batch {} is not the highest id {}", p.id, last.id));
+                self.vo("C06", "pending_is_highest", format!("pending batch {} is not the highest id {}", p.id, last.id));
             }
         }
         for b in &post.batches {
             let code = status_code(&b.status);
             if let Some((prev, exp)) = self.status_hist.get(&b.id).cloned() {
                 if code < prev || code > prev + 1 {
-                    self.v("C06", "status_monotone", format!("batch {} moved from status {} to {}", b.id, prev, code));
+                    self.vo("C06", "status_monotone", format!("batch {} moved from status {} to {}", b.id, prev, code));
                 }
                 if prev >= 1 && b.expected != exp {
-                    self.v("C06", "expected_constant", format!("batch {} expected amount changed {} -> {}", b.id, exp, b.expected));
+                    self.vo("C06", "expected_constant", format!("batch {} expected amount changed {} -> {}", b.id, exp, b.expected));
                 }
             }
             self.status_hist.insert(b.id, (code, b.expected));
@@ -655,20 +678,20 @@ impl Engine {
         for b in &post.batches {
             if let Some(mb) = self.m.batches.get(&b.id).cloned() {
                 if b.total != mb.total {
-                    self.v("C05", "batch_total_eq_sum", format!("batch {} total {} != sum of requests made {}", b.id, b.total, mb.total));
+                    self.vo("C05", "batch_total_eq_sum", format!("batch {} total {} != sum of requests made {}", b.id, b.total, mb.total));
                 }
                 if mb.status <= 1 && b.count != mb.reqs.len() as u64 {
-                    self.v("C05", "request_count", format!("batch {} request count {} != requesters {}", b.id, b.count, mb.reqs.len()));
+                    self.vo("C05", "request_count", format!("batch {} request count {} != requesters {}", b.id, b.count, mb.reqs.len()));
                 }
                 if mb.status == 2 && mb.paid > mb.received.unwrap_or(0) {
-                    self.v("C05", "payouts_le_received", format!("batch {} paid {} > received {}", b.id, mb.paid, mb.received.unwrap_or(0)));
+                    self.vo("C05", "payouts_le_received", format!("batch {} paid {} > received {}", b.id, mb.paid, mb.received.unwrap_or(0)));
                 }
             }
         }
 
         // ---- C07: reply queue empty, queue == ground truth
         if post.reply_queue != 0 {
-            self.v("C07", "reply_queue_empty", format!("{} pending-reply records after the transaction", post.reply_queue));
+            self.vo("C07", "reply_queue_empty", format!("{} pending-reply records after the transaction", post.reply_queue));
         }
         let mut expect: BTreeMap<u64, (String, u128, String, &'static str)> = BTreeMap::new();
         let mut exempt: BTreeSet<u64> = BTreeSet::new();
@@ -712,12 +735,12 @@ impl Engine {
                 match got.get(seq) {
                     None => {
                         let m = format!("transfer seq {} ({} {} to {}, truly {}) is not recorded", seq, e.1, e.0, e.2, e.3);
-                        self.v("C07", "queue_tracks_all", m)
+                        self.vo("C07", "queue_tracks_all", m)
                     }
                     Some(g) => {
                         if g.0 != e.0 || g.1 != e.1 || g.2 != e.2 || (g.3 != e.3 && !exempt.contains(seq)) {
                             let m = format!("transfer seq {} recorded as {:?} but truly {:?}", seq, g, e);
-                            self.v("C07", "queue_record_exact", m)
+                            self.vo("C07", "queue_record_exact", m)
                         }
                     }
                 }
@@ -725,7 +748,7 @@ impl Engine {
             for (seq, g) in &got {
                 if !expect.contains_key(seq) {
                     let m = format!("record seq {} {:?} does not correspond to an open transfer", seq, g);
-                    self.v("C07", "queue_no_ghosts", m)
+                    self.vo("C07", "queue_no_ghosts", m)
                 }
             }
         }
@@ -748,19 +771,19 @@ impl Engine {
                         (decimal18(post.n, post.l), decimal18(post.l, post.n))
                     };
                     match (posts.last(), red, pur) {
-                        (None, _, _) => self.v("C15", "posts_on_change", "totals changed but nothing was posted to the oracle".into()),
+                        (None, _, _) => self.vo("C15", "posts_on_change", "totals changed but nothing was posted to the oracle".into()),
                         (Some(p), Some(red), Some(pur)) => {
                             let pv: Value = serde_json::from_str(p).unwrap_or(Value::Null);
                             let pr = &pv["post_rates"];
                             let ok = pr["denom"].as_str() == Some(lst.as_str()) && pr["redemption_rate"].as_str() == Some(red.as_str()) && pr["purchase_rate"].as_str() == Some(pur.as_str());
                             if !ok {
-                                self.v("C15", "post_tx_rates", format!("posted {} but post-transaction rates are redemption {} purchase {} for {} (N={}, L={})", p, red, pur, lst, post.n, post.l));
+                                self.vo("C15", "post_tx_rates", format!("posted {} but post-transaction rates are redemption {} purchase {} for {} (N={}, L={})", p, red, pur, lst, post.n, post.l));
                             }
                         }
                         _ => {}
                     }
                 } else if !posts.is_empty() {
-                    self.v("C15", "no_oracle_no_post", "posted without an oracle configured".into());
+                    self.vo("C15", "no_oracle_no_post", "posted without an oracle configured".into());
                 }
             }
         }
@@ -768,7 +791,7 @@ impl Engine {
         if post.l > 0 && post.n > 0 {
             if let Some(pur) = decimal18(post.l, post.n) {
                 if post.rate != pur {
-                    self.v("C15", "state_rate", format!("State.rate {} != purchase rate {} (N={}, L={})", post.rate, pur, post.n, post.l));
+                    self.vo("C15", "state_rate", format!("State.rate {} != purchase rate {} (N={}, L={})", post.rate, pur, post.n, post.l));
                 }
             }
         }
@@ -793,13 +816,13 @@ impl Engine {
             self.v("C06", "batch_fields", format!("{} batches but model has {}", post.batches.len(), self.m.batches.len()));
         }
         if post.fees != self.m.fees {
-            self.v("C11", "fee_balance", format!("State.total_fees {} != accrued-minus-withdrawn {}", post.fees, self.m.fees));
+            self.vo("C11", "fee_balance", format!("State.total_fees {} != accrued-minus-withdrawn {}", post.fees, self.m.fees));
         }
         if post.rewards != self.m.rewards {
-            self.v("C11", "reward_counter", format!("State.total_reward_amount {} != sum of rewards {}", post.rewards, self.m.rewards));
+            self.vo("C11", "reward_counter", format!("State.total_reward_amount {} != sum of rewards {}", post.rewards, self.m.rewards));
         }
         if post.stopped != self.m.halted {
-            self.v("C10", "halted_flag", format!("Config.stopped {} != model {}", post.stopped, self.m.halted));
+            self.vo("C10", "halted_flag", format!("Config.stopped {} != model {}", post.stopped, self.m.halted));
         }
 
         let ps = self.abstract_state();
